@@ -539,7 +539,10 @@ def rule_cli_hl2(ctx, R):
               "the plain segment is flushed (after reset) exactly when depth goes 0 -> non-0, the highlighted segment (after "
               "set_color) exactly when it goes non-0 -> 0, and nothing is written while the depth stays zero / non-zero "
               "(depth = running sum of the deltas)")
-    redspec = [x for c in setc for x in walk(c["args"][1]) if x[0] == "agg" and x[2] == "Red"]
+    # a foreground colour is set on the spec passed to set_color (a literal `Color::Red`, or a named constant)
+    redspec = [x for c in setc for x in walk(c["args"][1]) if (x[0] == "agg" and x[2] == "Red") or
+               (x[0] in ("call", "mutby") and isinstance(x[1], str) and x[1].split("@")[0].endswith("ColorSpec::set_fg") and
+                any(y[0] == "agg" and y[2] == "Some" for y in x[2]))]
     ctx.check(bool(redspec), "CLI-HL2", b, "highlight-colour", b.span, "matched text is highlighted (foreground colour set)")
     # depth := new depth on every iteration; prev := pos after each flush
     ctx.check(any(b.edge_guards((sw_p[0][0], none), r["bb"]) and b.dominates(r["bb"], tail[0]["bb"]) for r in resets) and
